@@ -558,12 +558,12 @@ def sparseLlDirichlet (T : Transc α) (pi : α) (ind1 : List Nat) (data1 : List 
           (i1, i2, log_b))
           (i1, i2, log_b)
       let self_denom1 : α := 0
-      let self_denom1 := data1.foldl (fun (st : α) (d1 : α) =>
+      let self_denom1 := (data1).foldl (fun (st : α) (d1 : α) =>
           let self_denom1 := st
           let self_denom1 := self_denom1 + (logSingleBeta T pi d1)
           self_denom1) self_denom1
       let self_denom2 : α := 0
-      let self_denom2 := data2.foldl (fun (st : α) (d2 : α) =>
+      let self_denom2 := (data2).foldl (fun (st : α) (d2 : α) =>
           let self_denom2 := st
           let self_denom2 := self_denom2 + (logSingleBeta T pi d2)
           self_denom2) self_denom2
